@@ -9,8 +9,8 @@
      mod16_base_table[..].
    The verdict (accepted with N bytes | refused with error e) is COMPUTED here and compared with the real encoder.
    Supported forms (the generator produces only these; everything else yields MUnsupported): base/index registers of any
-   type and id, [disp32] without base in 32-bit mode, 16-bit addressing; not: label / rip bases (EncPathModel) and
-   base-less addresses in 64-bit mode (absolute/relative guessing against the base address). *)
+   type and id, base-less addresses in 32-bit mode ([disp32]) and in 64-bit mode (absolute / RIP-relative guessing against
+   the base address, zero-extension 67h, AbsToRel relocation), 16-bit addressing; not: label / rip bases (EncPathModel). *)
 From Coq Require Import ZArith NArith List Bool.
 From Verif Require Import EmitState.EmitStateModel EmitState.LookupModel X86Validate.ValidateModel.
 From VerifGen Require Import C14Tables X86Sigs.
@@ -20,7 +20,9 @@ Local Open Scope Z_scope.
 Definition kInvalidRexPrefix := 37.
 Definition kInvalidAddress := 43.
 Definition kInvalidAddressIndex := 44.
-Definition mem_path_constants : list Z := [kInvalidRexPrefix; kInvalidAddress; kInvalidAddressIndex].
+Definition kInvalidAddress64Bit := 46.
+Definition kBaseAddress := 65536.   (* the base address of the sessions that have one (harness: 0x10000) *)
+Definition mem_path_constants : list Z := [kInvalidRexPrefix; kInvalidAddress; kInvalidAddressIndex; kInvalidAddress64Bit].
 
 (* the fields of the memory operand and of the destination register as the public setters leave them *)
 Record memf := mkMem {
@@ -30,7 +32,7 @@ Record memf := mkMem {
   m_shift : Z; m_seg : Z; m_addr : Z; m_size : Z;
   m_off : Z }.                  (* 64-bit offset (two's complement, signed) *)
 
-Inductive mres := MOk (nbytes : Z) | MErr (e : Z) | MStuck | MUnsupported.
+Inductive mres := MOk (nbytes relocs : Z) | MErr (e : Z) | MStuck | MUnsupported.
 
 Definition sext (bits v : Z) : Z := let m := v mod 2 ^ bits in if m <? 2 ^ (bits - 1) then m else m - 2 ^ bits.
 Definition is_int8 (v : Z) : bool := (-128 <=? v) && (v <=? 127).
@@ -38,7 +40,9 @@ Definition is_int8 (v : Z) : bool := (-128 <=? v) && (v <=? 127).
 Definition bind_l (o : option Z) (f : Z -> mres) : mres := match o with Some v => f v | None => MStuck end.
 
 (* EmitX86M prefixes + EmitModSib, transcribed branch by branch; `x64` selects the mode *)
-Definition x86_add_mem_encode (x64 : bool) (m : memf) : mres :=
+(* `absloc`: the code has a base address and the current section is .text (EmitterUtils::is_absolute_location);
+   `cur`: offset of the instruction in its section (needed for the RIP-relative guess of base-less 64-bit addresses) *)
+Definition x86_add_mem_encode (x64 absloc : bool) (cur : Z) (m : memf) : mres :=
   bind_l (lookup x86_mem_info_table (m_btype m + 32 * m_itype m)) (fun rm_info =>
   bind_l (lookup x86_segment_prefix_table (m_seg m)) (fun segp =>
   let nseg := if segp =? 0 then 0 else 1 in
@@ -57,20 +61,33 @@ Definition x86_add_mem_encode (x64 : bool) (m : memf) : mres :=
   if negb has_index && negb a16 then
     if has_base then
       let rb := Z.land (m_bid m) 7 in
-      if rb =? 4 then (if rel =? 0 then MOk (pre + 2) else if is_int8 rel then MOk (pre + 3) else MOk (pre + 6))
-      else if negb (rb =? 5) && (rel =? 0) then MOk (pre + 1)
-      else if is_int8 rel then MOk (pre + 2) else MOk (pre + 5)
+      if rb =? 4 then (if rel =? 0 then MOk (pre + 2) 0 else if is_int8 rel then MOk (pre + 3) 0 else MOk (pre + 6) 0)
+      else if negb (rb =? 5) && (rel =? 0) then MOk (pre + 1) 0
+      else if is_int8 rel then MOk (pre + 2) 0 else MOk (pre + 5) 0
     else if lbl_or_rip then MUnsupported
-    else if x64 then MUnsupported
+    else if x64 then
+      (* [ABSOLUTE | DISP32] in 64-bit mode: absolute (SIB form, 67h when only zero extension reaches it) or RIP-relative *)
+      let off := sext 64 (m_off m) in
+      let is_i32 := off =? sext 32 off in
+      let is_u32 := (0 <=? off) && (off <? 2 ^ 32) in
+      let at0 := m_addr m in
+      let atp := if at0 =? 0 then (if absloc then (if is_i32 || is_u32 then 1 else 2) else (if 5 <=? m_seg m then 1 else 2)) else at0 in
+      let abs_tail := if is_i32 then MOk (pre + 6) 0 else if is_u32 then MOk (pre + 7) 0 else MErr kInvalidAddress64Bit in
+      if atp =? 2 then
+        if negb absloc then MOk (pre + 5) 1                  (* AbsToRel relocation, displacement unknown yet *)
+        else let rel := sext 64 (off - (kBaseAddress + cur + pre + 5)) in
+             if rel =? sext 32 rel then MOk (pre + 5) 0
+             else if at0 =? 2 then MErr kInvalidAddress else abs_tail
+      else abs_tail
     else if m_addr m =? 2 then MErr kInvalidAddress        (* Mem::AddrType::kRel in 32-bit mode *)
-    else MOk (pre + 5)
+    else MOk (pre + 5) 0
   else if negb a16 then
     if m_iid m =? 4 then MErr kInvalidAddressIndex
     else if has_base then
       let rb := Z.land (m_bid m) 7 in
-      if (rel =? 0) && negb (rb =? 5) then MOk (pre + 2) else if is_int8 rel then MOk (pre + 3) else MOk (pre + 6)
+      if (rel =? 0) && negb (rb =? 5) then MOk (pre + 2) 0 else if is_int8 rel then MOk (pre + 3) 0 else MOk (pre + 6) 0
     else if lbl_or_rip then MUnsupported
-    else MOk (pre + 6)
+    else MOk (pre + 6) 0
   else
     let rel16 := sext 16 (m_off m) in
     if has_base || has_index then
@@ -79,14 +96,14 @@ Definition x86_add_mem_encode (x64 : bool) (m : memf) : mres :=
       let after (md : Z) : mres :=
         if md =? 255 then MErr kInvalidAddress
         else let md' := md + Z.shiftl opreg 3 in
-             if (rel16 =? 0) && negb (Z.land md' 7 =? 6) then MOk (pre + 1)
-             else if is_int8 rel16 then MOk (pre + 2) else MOk (pre + 3) in
+             if (rel16 =? 0) && negb (Z.land md' 7 =? 6) then MOk (pre + 1) 0
+             else if is_int8 rel16 then MOk (pre + 2) 0 else MOk (pre + 3) 0 in
       if has_base && has_index then
         if negb (m_shift m =? 0) then MErr kInvalidAddress
         else bind_l (lookup x86_mod16_base_index_table (mod16_index rb rx)) after
       else bind_l (lookup x86_mod16_base_table (if has_index then rx else rb)) after
     else if lbl_or_rip then MErr kInvalidAddress
-    else MOk (pre + 3))).
+    else MOk (pre + 3) 0)).
 
 (* strict validation first (C13's model over C13's generated tables) *)
 Definition validate_add_mem (x64 : bool) (add_id : Z) (m : memf) : Z :=
@@ -97,14 +114,68 @@ Definition validate_add_mem (x64 : bool) (add_id : Z) (m : memf) : Z :=
              OMem (Z.to_N (m_size m)) (Z.to_N (m_btype m)) (Z.to_N (m_bid m)) (Z.to_N (m_itype m)) (Z.to_N (m_iid m)) off
                   (Z.to_N (m_seg m)) 0%N false]).
 
-Definition x86_add_mem (x64 : bool) (add_id : Z) (m : memf) : mres :=
+Definition x86_add_mem (x64 absloc : bool) (cur : Z) (add_id : Z) (m : memf) : mres :=
   let e := validate_add_mem x64 add_id m in
-  if e =? 0 then x86_add_mem_encode x64 m else MErr e.
+  if e =? 0 then x86_add_mem_encode x64 absloc cur m else MErr e.
 
 (* hand the verdict to the emit transaction of EmitStateModel *)
-Definition mem_cmd (a : arch) (add_id : Z) (m : memf) : option cmd :=
-  match x86_add_mem (match a with X86_64 => true | _ => false end) add_id m with
-  | MOk n => Some (CInst (EncOk n None false 0 0 0))
+Definition mem_cmd (a : arch) (has_base_address : bool) (s : state) (add_id : Z) (m : memf) : option cmd :=
+  match x86_add_mem (match a with X86_64 => true | _ => false end) (has_base_address && (st_cur s =? 0)) (cur_size s) add_id m with
+  | MOk n dr => Some (CInst (EncOk n None false dr 0 0))
   | MErr e => Some (CInst (EncErr e))
   | MStuck | MUnsupported => None
   end.
+
+(* ---------------------------------------------------------------- VEX + VSIB: vgatherdps xmm|ymm, [base + xmm|ymm*s + d], xmm|ymm
+   kEncodingVexRmvRm_VM (Reg, Mem, Reg) -> opcode_l_by_vmem (ll_by_reg_type_table[index_type]) and opcode_l_by_size
+   (ll_by_size_div_16_table[size / 16]) -> EmitVexEvexM (segment / address-size override, VEX3 prefix: map 0F38) ->
+   EmitModVSib.  Only the VEX form is modelled: register ids >= 16 or a 512-bit index/size select EVEX (MUnsupported). *)
+Definition kInvalidInstruction := 26.
+
+Record vsibf := mkVsib { v_type : Z; v_dst : Z; v_mask : Z; v_dsize : Z; v_mem : memf }.   (* v_mem.m_dst is unused *)
+
+Definition x86_vgather_encode (x64 : bool) (v : vsibf) : mres :=
+  let m := v_mem v in
+  bind_l (lookup x86_mem_info_table (m_btype m + 32 * m_itype m)) (fun rm_info =>
+  bind_l (lookup x86_segment_prefix_table (m_seg m)) (fun segp =>
+  bind_l (lookup x86_ll_by_reg_type_table (m_itype m)) (fun ll_v =>
+  bind_l (lookup x86_ll_by_size_div_16_table (v_dsize v / 16)) (fun ll_s =>
+  let nseg := if segp =? 0 then 0 else 1 in
+  let nao := if Z.land rm_info (if x64 then 128 else 64) =? 0 then 0 else 1 in
+  let has_index_reg := negb (m_itype m =? 0) in
+  let ll := Z.max ll_v ll_s in
+  if (16 <=? v_dst v) || (16 <=? v_mask v) || (has_index_reg && (16 <=? m_iid m)) || (1073741824 <=? ll) then MUnsupported else
+  let pre := nseg + nao + 4 in
+  let rel := sext 32 (m_off m) in
+  if Z.land rm_info 2 =? 0 then MErr kInvalidInstruction                 (* VSIB without an index register *)
+  else if negb (Z.land rm_info 1 =? 0) then
+    let rb := Z.land (m_bid m) 7 in
+    if (rel =? 0) && negb (rb =? 5) then MOk (pre + 2) 0 else if is_int8 rel then MOk (pre + 3) 0 else MOk (pre + 6) 0
+  else if Z.land rm_info 48 =? 0 then MOk (pre + 6) 0
+  else if x64 then MErr kInvalidAddress
+  else MUnsupported)))).
+
+Definition validate_vgather (x64 : bool) (inst_id : Z) (v : vsibf) : Z :=
+  let m := v_mem v in
+  let off := if m_btype m =? 0 then sext 64 (m_off m) else sext 32 (m_off m) in
+  Z.of_N (validate x86_vtables false x64 false
+            {| vi_id := Z.to_N inst_id; vi_options := 0%N; vi_extra_type := 0%N; vi_extra_id := 0%N |}
+            [OReg (Z.to_N (v_type v)) (Z.to_N (v_dst v));
+             OMem (Z.to_N (m_size m)) (Z.to_N (m_btype m)) (Z.to_N (m_bid m)) (Z.to_N (m_itype m)) (Z.to_N (m_iid m)) off
+                  (Z.to_N (m_seg m)) 0%N false;
+             OReg (Z.to_N (v_type v)) (Z.to_N (v_mask v))]).
+
+Definition x86_vgather (x64 : bool) (inst_id : Z) (v : vsibf) : mres :=
+  let e := validate_vgather x64 inst_id v in
+  if e =? 0 then x86_vgather_encode x64 v else MErr e.
+
+Definition vsib_cmd (a : arch) (inst_id : Z) (v : vsibf) : option cmd :=
+  match x86_vgather (match a with X86_64 => true | _ => false end) inst_id v with
+  | MOk n dr => Some (CInst (EncOk n None false dr 0 0))
+  | MErr e => Some (CInst (EncErr e))
+  | MStuck | MUnsupported => None
+  end.
+
+(* the index types the strict validator lets through (its allowed_mem_index_regs masks, dumped into C14Tables) *)
+Definition index_type_allowed (it : Z) : Prop :=
+  it = 0 \/ Z.testbit x86c_allowed_mem_index_regs_x86 it = true \/ Z.testbit x86c_allowed_mem_index_regs_x64 it = true.
